@@ -83,8 +83,7 @@ structure Opts where
 abbrev St (α : Type) := Array (PAtom α)
 
 section
-variable {α : Type} [Add α] [Sub α] [Mul α] [Div α] [Neg α] [OfNat α 0] [OfNat α 1] [OfNat α 2]
-  [DecidableEq α] [LT α] [DecidableLT α] [Max α] [NatCast α] [Trig α] [Bonds.CellIdx α]
+variable {α : Type} [OfNat α 0]
 
 def PAtom.dflt : PAtom α :=
   ⟨false, "", "", "", "", 0, "", "", ⟨0, 0, 0⟩, false, [], false, "", false, 0, 0, 0, 0, 0, false, false, ""⟩
@@ -95,25 +94,40 @@ def at' (s : St α) (i : Nat) : PAtom α := s.getD i PAtom.dflt
 def view (s : St α) : Scoring.Tab Scoring.AtomT :=
   ⟨s.size, fun i => let a := at' s i; ⟨a.elem, a.name, a.gtype, a.bonded⟩⟩
 
+end
+
 /-! ### bonds -/
+section
+variable {α : Type} [Add α] [Sub α] [Mul α] [OfNat α 0] [LT α] [DecidableLT α] [Max α] [Bonds.CellIdx α]
+
+/-- what the distance criterion reads of atom `i` -/
+def batom (s : St α) (i : Nat) : Bonds.BAtom α := let a := at' s i; ⟨a.pos.x, a.pos.y, a.pos.z, a.elem⟩
+
+/-- `make_bond(atom1, atom2)` for two atoms that are not bonded yet: atom2's list gets atom1 first, then atom1's list gets atom2 -/
+def addBond (s : St α) (a b : Nat) : St α :=
+  (s.modify b fun x => { x with bonded := x.bonded ++ [a] }).modify a fun x =>
+    if x.bonded.contains b then x else { x with bonded := x.bonded ++ [b] }
+
+/-- both sulfurs of a disulfide are flagged -/
+def flagBridge (s : St α) (a b : Nat) : St α :=
+  (s.modify a fun x => { x with bridged := true }).modify b fun x => { x with bridged := true }
+
 /-- `_find_bonds_for_atoms(atom1, atom2)` -/
 def bondStep (P : PP α) (s : St α) (p : Nat × Nat) : St α :=
-  let a := at' s p.1
-  let b := at' s p.2
-  if b.bonded.contains p.1 then s
-  else if Bonds.crit P.bond ⟨a.pos.x, a.pos.y, a.pos.z, a.elem⟩ ⟨b.pos.x, b.pos.y, b.pos.z, b.elem⟩ then
-    -- make_bond: atom2.bonded_atoms gets atom1 first, then atom1.bonded_atoms gets atom2
-    let s1 := s.modify p.2 fun x => { x with bonded := x.bonded ++ [p.1] }
-    let s2 := s1.modify p.1 fun x => if x.bonded.contains p.2 then x else { x with bonded := x.bonded ++ [p.2] }
-    if a.elem == "S" && b.elem == "S" then
-      (s2.modify p.1 fun x => { x with bridged := true }).modify p.2 fun x => { x with bridged := true }
-    else s2
+  if (at' s p.2).bonded.contains p.1 then s
+  else if Bonds.crit P.bond (batom s p.1) (batom s p.2) then
+    (if (at' s p.1).elem == "S" && (at' s p.2).elem == "S" then flagBridge (addBond s p.1 p.2) p.1 p.2 else addBond s p.1 p.2)
   else s
 
 /-- `find_bonds_for_atoms_using_boxes(conformation.atoms)` -/
 def bondAll (P : PP α) (s : St α) : St α :=
-  let cell := fun i => Bonds.cellOf P.bond (let a := at' s i; (⟨a.pos.x, a.pos.y, a.pos.z, a.elem⟩ : Bonds.BAtom α))
-  (Bonds.visited P.offsets (Bonds.buildBoxes cell s.size)).foldl (bondStep P) s
+  (Bonds.visited P.offsets (Bonds.buildBoxes (fun i => Bonds.cellOf P.bond (batom s i)) s.size)).foldl (bondStep P) s
+
+end
+
+section
+variable {α : Type} [Add α] [Sub α] [Mul α] [Div α] [Neg α] [OfNat α 0] [OfNat α 1] [OfNat α 2]
+  [DecidableEq α] [LT α] [DecidableLT α] [Max α] [NatCast α] [Trig α] [Bonds.CellIdx α]
 
 /-! ### SYBYL typing (`propka.ligand`) -/
 def setType (s : St α) (i : Nat) (t : String) : St α := s.modify i fun x => { x with sybyl := t, sybylSet := true }
